@@ -110,6 +110,17 @@ Definition op_filt (ts : list wtok) : list wtok :=
        if message_bytes_overflows m then [WN 1]
        else WN 0 :: w_pres w_parsed (dlt_message (message_bytes m ++ suffix) (Some (process_filter f)) (has_storage m))).
 
+(* 30 FILT_HAND: like 26 with the processed minimum level set by hand (the way to an Invalid minimum) *)
+Definition op_filt_hand (ts : list wtok) : list wtok :=
+  run_rd (rlet m := r_msg in rlet f := r_filter in rlet lvl := r_opt r_log_level in rlet suffix := r_bytes in
+          rret (m, f, lvl, suffix)) ts
+    (fun '(m, f, lvl, suffix) =>
+       let p := process_filter f in
+       let p' := mkPF lvl (pf_app_ids p) (pf_ecu_ids p) (pf_context_ids p) (pf_app_id_count p) (pf_context_id_count p) in
+       w_bool (wf_message m) ++
+       if message_bytes_overflows m then [WN 1]
+       else WN 0 :: w_pres w_parsed (dlt_message (message_bytes m ++ suffix) (Some p') (has_storage m))).
+
 (* 28 STABLE: parse bytes; re-serialise a returned message; parse again (C16) *)
 Definition op_stable (ts : list wtok) : list wtok :=
   run_rd (rlet sh := r_bool in rlet bs := r_bytes in rret (sh, bs)) ts (fun '(sh, bs) =>
@@ -284,6 +295,7 @@ Definition run_case (op : N) (ts : list wtok) : list wtok :=
   | 26 => op_filt ts
   | 27 => run_rd r_filter ts (fun f => w_processed (process_filter f))
   | 28 => op_stable ts
+  | 30 => op_filt_hand ts
   | 29 => op_streamj ts
   | 32 => op_stats ts
   | 40 => op_read ts
